@@ -521,6 +521,10 @@ for _f in sorted(_glob.glob("/verif/selftest/variants/b/C*-b*.diff")):
 for _p in ["C%02d" % i for i in range(1, 21)]:
     case(_p, _p + "-b-rename", "benign", "thirty unexported anchor functions renamed throughout the module", patch="selftest/variants/all-b-rename.diff")
 
+case("C17", "C17-D18", "mutant", "historical defect D18 re-introduced: TagDelete defers the Close of its DELETE response and runs the fallback under it",
+     patch="selftest/regress/D18.diff", expect=[("C17.R9", "TagDelete", "response of Do")])
+case("C17", "C17-seed6", "mutant", "seeded: ManifestPut defers the Close of its PUT response; the referrers fallback sends nested requests under it",
+     patch="seeded/C17-6/patch.diff", expect=[("C17.R9", "ManifestPut", "response of Do")])
 case("C17", "C17-D17", "mutant", "historical defect D17 re-introduced: the cancelled waiter searches the queue by the address of its (possibly zero-size) entry",
      patch="selftest/regress/D17.diff", expect=[("C17.R8", "Acquire", "own position")])
 
